@@ -1,4 +1,6 @@
 import Mps.Judge
+import MpsProps.C14alg
+import MpsProps.AlgGen
 /-
   C14 — property theorems: the algebra layer (MpsProps/C14alg.lean) is imported here once merged.
 -/
